@@ -867,3 +867,101 @@ def builtin_subclass(name, others):
         return False
     return any(isinstance(getattr(builtins, o, None), type) and
                issubclass(k, getattr(builtins, o)) for o in others)
+
+
+# ---------------------------------------------------------------------------
+# G-SETITER over the whole package
+
+LISTS_OF_SETS = {"_translations", "_scopes", "scopes"}
+ORDERED_CONSUMERS = ("list", "tuple", "enumerate", "zip", "map", "iter",
+                     "next", "reversed")
+
+
+def _set_attrs(repo):
+    out = set()
+    for q, c in repo.classes.items():
+        for k, v in c.attrs.items():
+            if _is_set_expr(v, {}, set()):
+                out.add(k)
+        for m in c.methods.values():
+            for n in ast.walk(m.node):
+                if isinstance(n, ast.Assign):
+                    for t in n.targets:
+                        if isinstance(t, ast.Attribute) and \
+                                src(t.value) == "self" and \
+                                _is_set_expr(n.value, {}, set()):
+                            out.add(t.attr)
+    return out
+
+
+def _is_set_expr(e, local, attrs):
+    if isinstance(e, (ast.Set, ast.SetComp)):
+        return True
+    if isinstance(e, ast.Call) and isinstance(e.func, ast.Name) and \
+            e.func.id in ("set", "frozenset"):
+        return True
+    if isinstance(e, ast.Name) and e.id in local:
+        return True
+    if isinstance(e, ast.Attribute) and e.attr in attrs and \
+            src(e.value) == "self":
+        return True
+    if isinstance(e, ast.BinOp) and isinstance(
+            e.op, (ast.BitOr, ast.BitAnd, ast.Sub, ast.BitXor)):
+        return _is_set_expr(e.left, local, attrs) or \
+            _is_set_expr(e.right, local, attrs)
+    if isinstance(e, ast.Call) and isinstance(e.func, ast.Attribute) and \
+            e.func.attr in ("union", "intersection", "difference",
+                            "symmetric_difference", "copy") and \
+            _is_set_expr(e.func.value, local, attrs):
+        return True
+    if isinstance(e, ast.Subscript) and isinstance(e.value, ast.Attribute) \
+            and e.value.attr in LISTS_OF_SETS:
+        return True
+    return False
+
+
+def set_iteration_sites(repo):
+    """Every place of the package where a set-typed expression is iterated
+    in an order-observing way (for loop, comprehension, list()/tuple()/
+    join()/extend()/unpacking).  sorted()/set()/len()/any()/all()/min()/
+    max()/sum()/membership are order-free and not reported.
+    -> [(Func, lineno, kind, resolved-iter-text)]"""
+    attrs = _set_attrs(repo)
+    out = []
+    for q, f in sorted(repo.funcs.items()):
+        local = {}
+        for _ in range(3):
+            for n in ast.walk(f.node):
+                if isinstance(n, ast.Assign) and \
+                        _is_set_expr(n.value, local, attrs):
+                    for t in n.targets:
+                        if isinstance(t, ast.Name):
+                            local[t.id] = n.value
+        for n in ast.walk(f.node):
+            its = []
+            if isinstance(n, ast.For):
+                its.append((n.iter, "for"))
+            elif isinstance(n, ast.comprehension):
+                par = getattr(n, "_parent", None)
+                if not isinstance(par, ast.SetComp):
+                    its.append((n.iter, "comprehension"))
+            elif isinstance(n, ast.Call) and isinstance(n.func, ast.Name) \
+                    and n.func.id in ORDERED_CONSUMERS:
+                its += [(a, n.func.id) for a in n.args]
+            elif isinstance(n, ast.Call) and isinstance(
+                    n.func, ast.Attribute) and n.func.attr in (
+                        "join", "extend"):
+                its += [(a, n.func.attr) for a in n.args]
+            elif isinstance(n, ast.Starred):
+                its.append((n.value, "unpack"))
+            for e, kind in its:
+                if _is_set_expr(e, local, attrs):
+                    r = e
+                    seen = 0
+                    while isinstance(r, ast.Name) and r.id in local and \
+                            seen < 5:
+                        r = local[r.id]
+                        seen += 1
+                    out.append((f, getattr(e, "lineno", f.node.lineno), kind,
+                                src(r)))
+    return out
